@@ -97,7 +97,9 @@ def check(P, R):
         sts = stores.get(name, [])
         ok = bool(sts) and any(g.must_pass(g.entry, g.exit, [g.node_of_stmt(s)[0]]) for s in sts)
         if ok and name in ('_cookies',):
-            ok = any(isinstance(s.value, ast.Constant) and s.value.value is None for s in sts)
+            ok = any((isinstance(s.value, ast.Constant) and s.value.value is None) or
+                     (isinstance(s.value, ast.Call) and not s.value.args and not s.value.keywords and (dotted(s.value.func) or '').split('.')[-1] in ('SimpleCookie', 'dict', 'BaseCookie'))
+                     for s in sts)       # None, or a jar made by this call
         if ok and name == '_headers':
             ok = any(isinstance(s.value, ast.Dict) and not s.value.keys for s in sts)
         R.ob('C09.a', bi, sts[0] if sts else bi.node, ok, text=f'self.{name} reset by __init__', detail='' if ok else
@@ -275,6 +277,26 @@ def check_apply(P, R):
                          'the response is re-pointed at the stored object\'s header dictionary: Content-Length / Content-Type written '
                          'while finishing this response land on the shared error object and show up in later responses',
                          why='the errors_map responses are shared by all requests (and all applications)')
+    # the jar of the applied response becomes the live jar only when it holds cookies: an *empty* jar of a shared error object (errors_map) must not be the
+    # object that later set_cookie() calls of this request write into
+    for st in walk_shallow(f.node):
+        if isinstance(st, ast.Assign) and isinstance(st.value, ast.Attribute) and st.value.attr == '_cookies' and src(st.value.value) == 'self' \
+                and any(isinstance(t, ast.Attribute) and t.attr == '_cookies' and src(t.value) == rp for t in st.targets):
+            sn_ = g.node_of_stmt(st)[0]
+            atoms = T.guard_atoms(f, sn_)
+            nonempty = any(holds_ and isinstance(e_, ast.Attribute) and src(e_) == 'self._cookies' for (e_, holds_, _t) in atoms) or \
+                any(holds_ and isinstance(e_, ast.Call) and dotted(e_.func) == 'len' and 'self._cookies' in src(e_) for (e_, holds_, _t) in atoms)
+            # (an `is not None` guard is as good as long as every response starts without a jar: __init__ resets the field to None and set_cookie creates it)
+            bi_ = P.func(f'{RS}:BaseResponse.__init__')
+            lazy = all(isinstance(s_.value, ast.Constant) and s_.value.value is None for s_ in walk_shallow(bi_.node)
+                       if isinstance(s_, ast.Assign) and any(dotted(t_) == 'self._cookies' for t_ in s_.targets))
+            exists_guard = any(holds_ and compare_parts(e_) and compare_parts(e_)[1] is ast.IsNot and src(compare_parts(e_)[0]) == 'self._cookies' for (e_, holds_, _t) in atoms)
+            nonempty = nonempty or (lazy and exists_guard)
+            R.ob('C09.c', f, st, nonempty, text=f'`{short(st)}` only for a jar that holds cookies', detail='' if nonempty else
+                 f'`{short(st)}` installs the applied response\'s jar as the live jar whenever it exists, also when it is empty: the responses in config.errors_map are single '
+                 f'objects, so a cookie set afterwards (a custom error handler calling response.set_cookie) lands in the shared error\'s jar and is replayed on every later '
+                 f'400 / 413, and the jar grows with the requests',
+                 why='nothing set while serving an earlier request may appear in a later response; retention stays bounded', key_extra='jar-alias-nonempty')
     calls = [c for c in walk_shallow(f.node) if isinstance(c, ast.Call) and isinstance(c.func, ast.Attribute)]
     def _recv(c_):
         return T.xsrc(f, c_.func.value, g.node_of_stmt(c_)[0], keep=(rp,))
@@ -403,7 +425,7 @@ def check_shared_writes(P, R, rid, strict=False, same_for_all_threads_ok=False, 
             elif isinstance(n, ast.Call):
                 vals.extend(n.args)
                 vals.extend(k.value for k in n.keywords)
-            carries = request_derived(f, vals, at) or w['kind'] == 'memo'
+            carries = request_derived(f, vals, at) or w['kind'] in ('memo', 'handed-out', 'handed-to-request')    # a shared mutable object given to request code is written by it
             # a stateful object of the package parked in such a location is reused by later requests together with whatever state it is in
             pooled = None
             for v_ in vals:
